@@ -63,7 +63,11 @@ var Family = []*T{
 	{Name: "ListT", Kind: "list", Elem: "Tuple"},
 	{Name: "MapSN", Kind: "map", Elem: "Int", ElemNullable: true},
 	{Name: "ListN", Kind: "list", Elem: "String", ElemNullable: true},
-	{Name: "OptComp", Kind: "struct", Repr: "map", Fields: []F{{Name: "P", Type: "Plain", Optional: true}, {Name: "U", Type: "UnionSP", Nullable: true}, {Name: "L", Type: "ListI", Optional: true}, {Name: "K", Type: "UnionK", Optional: true, Nullable: true}, {Name: "J", Type: "Join", Optional: true}}},
+	{Name: "OptComp", Kind: "struct", Repr: "map", Fields: []F{{Name: "U", Type: "UnionSP", Nullable: true}, {Name: "K", Type: "UnionK", Optional: true, Nullable: true}}},
+	{Name: "OptMore", Kind: "struct", Repr: "map", Fields: []F{{Name: "L", Type: "ListI", Optional: true}, {Name: "J", Type: "Join", Optional: true}, {Name: "M", Type: "MapSI", Nullable: true}}},
+	{Name: "OptOne", Kind: "struct", Repr: "map", Fields: []F{{Name: "N", Type: "String"}, {Name: "P", Type: "Plain", Optional: true}, {Name: "U", Type: "UnionK", Nullable: true}}},
+	{Name: "ListOO", Kind: "list", Elem: "OptOne"},
+	{Name: "MapOO", Kind: "map", Elem: "OptOne"},
 	{Name: "EnumX", Kind: "enum", Repr: "string", NoGen: true, Members: []M{{Type: "Low", Discr: "Med"}, {Type: "Med", Discr: "High"}, {Type: "High", Discr: "Max"}}},
 	{Name: "Outer", Kind: "struct", Repr: "map", Fields: []F{{Name: "P", Type: "Plain"}, {Name: "L", Type: "ListI"}, {Name: "M", Type: "MapSI"}, {Name: "U", Type: "UnionK"}}},
 	{Name: "Nested", Kind: "struct", Repr: "map", NoGen: true, Fields: []F{{Name: "P", Type: "Plain"}, {Name: "L", Type: "ListI"}, {Name: "M", Type: "MapSI"}, {Name: "U", Type: "UnionK"}, {Name: "E", Type: "EnumS"}, {Name: "EI", Type: "EnumI"}, {Name: "By", Type: "Bytes"}}},
@@ -242,11 +246,14 @@ type MapSN struct {
 }
 
 type OptComp struct {
-	P *Plain
 	U *UnionSP
-	L []int64 // optional through a nilable, non-pointer Go type
 	K **UnionK
+}
+
+type OptMore struct {
+	L []int64 // optional through a nilable, non-pointer Go type
 	J *Join
+	M *MapSI
 }
 
 type Nested struct {
@@ -294,6 +301,8 @@ func GoPtr(name string) interface{} {
 		return (*MapSN)(nil)
 	case "OptComp":
 		return (*OptComp)(nil)
+	case "OptMore":
+		return (*OptMore)(nil)
 	}
 	return nil
 }
